@@ -4,7 +4,7 @@
    computed from their parent.  That the real heap behaves like this store is what the
    correspondence check establishes (hence: partial). *)
 From Coq Require Import List ZArith QArith Qcanon Arith Bool.
-From Dimod Require Import Base.Util Model.Poly Model.Samples Model.SSet Model.Store Model.Heap
+From Dimod Require Import Base.Util Model.Poly Model.Samples Model.SSet Model.Store Model.Heap Model.CopyApi Gen.Gen_Copy
   Proofs.StoreFacts Proofs.HeapFacts.
 Import ListNotations.
 Local Open Scope nat_scope.
@@ -122,6 +122,86 @@ Theorem C19_copy_then_history_independent :
           nth_error (hrun K h1 ops) j = nth_error h j).
 Proof. exact copy_then_history_independent. Qed.
 Print Assumptions C19_copy_then_history_independent.
+
+(* ---- handing a live model to a CQM: copy=True vs copy=False (move) ---- *)
+Theorem C19_add_constraint_cells :
+  forall K h ci mi lbl copy ob cs p,
+    nth_error h ci = Some (OCqm ob cs) -> nth_error h mi = Some (OModel p) ->
+    let h' := hstep K h (HAddConstraint ci mi lbl copy) in
+    nth_error h' ci = Some (OCqm ob (cs ++ [(lbl, p)]))
+    /\ nth_error h' mi = Some (OModel (if copy then p else pzero))
+    /\ (forall j, j <> ci -> j <> mi -> nth_error h' j = nth_error h j).
+Proof. exact add_constraint_cells. Qed.
+Print Assumptions C19_add_constraint_cells.
+
+Theorem C19_moved_from_is_empty : forall s, energy pzero s = 0%Qc.
+Proof. exact moved_from_is_empty. Qed.
+Print Assumptions C19_moved_from_is_empty.
+
+Theorem C19_stored_constraint_independent :
+  forall K h ci mi lbl copy ob cs p ops,
+    nth_error h ci = Some (OCqm ob cs) -> nth_error h mi = Some (OModel p) ->
+    (forall o, In o ops -> ~ edits_cell ci o) ->
+    nth_error (hrun K (hstep K h (HAddConstraint ci mi lbl copy)) ops) ci = Some (OCqm ob (cs ++ [(lbl, p)])).
+Proof. exact stored_constraint_independent. Qed.
+Print Assumptions C19_stored_constraint_independent.
+
+Theorem C19_copied_model_independent :
+  forall K h ci mi lbl ob cs p ops,
+    nth_error h ci = Some (OCqm ob cs) -> nth_error h mi = Some (OModel p) ->
+    (forall o, In o ops -> ~ edits_cell mi o) ->
+    nth_error (hrun K (hstep K h (HAddConstraint ci mi lbl true)) ops) mi = Some (OModel p).
+Proof. exact copied_model_independent. Qed.
+Print Assumptions C19_copied_model_independent.
+
+Theorem C19_set_objective_cells :
+  forall K h ci mi ob cs p,
+    nth_error h ci = Some (OCqm ob cs) -> nth_error h mi = Some (OModel p) ->
+    let h' := hstep K h (HSetObjective ci mi) in
+    nth_error h' ci = Some (OCqm p cs) /\ (forall j, j <> ci -> nth_error h' j = nth_error h j).
+Proof. exact set_objective_cells. Qed.
+Print Assumptions C19_set_objective_cells.
+
+(* ---- the documented aliases: CQM expression views and spin/binary views reflect their parent ---- *)
+Theorem C19_cqm_views_read_parent :
+  forall h ci ob cs,
+    nth_error h ci = Some (OCqm ob cs) ->
+    cqm_objective h ci = Some ob
+    /\ forall lbl, cqm_constraint h ci lbl = option_map snd (find (fun c => (fst c =? lbl)%nat) cs).
+Proof. exact cqm_views_read_parent. Qed.
+Print Assumptions C19_cqm_views_read_parent.
+
+Theorem C19_spin_binary_views_track_parent :
+  forall (s : store mstate) o v p w,
+    wf mstate s -> nth_error s v = Some (View p w) ->
+    read mstate model_viewfn (step mstate model_viewfn s o) v
+    = option_map (model_viewfn w) (own_state mstate (step mstate model_viewfn s o) p).
+Proof. exact spin_binary_views_track_parent. Qed.
+Print Assumptions C19_spin_binary_views_track_parent.
+
+Theorem C19_view_energy :
+  forall (m : mstate) x,
+    energy (snd (model_viewfn 0 m)) x = energy (snd m) (b2s_sample (fst m) x)
+    /\ energy (snd (model_viewfn 1 m)) x = energy (snd m) (s2b_sample (fst m) x).
+Proof. exact view_energy. Qed.
+Print Assumptions C19_view_energy.
+
+(* ---- arithmetic with a neutral operand (0 + a, a + 0, sum([a]), 1 * a, a / 1): equal contents, NEW object ---- *)
+Theorem C19_neutral_operand_is_a_fresh_equal_object :
+  forall K h src p,
+    nth_error h src = Some (OModel p) ->
+    hstep K h (HCopy src (CAddConst 0%Qc)) = h ++ [OModel p]
+    /\ hstep K h (HCopy src (CScale 1%Qc)) = h ++ [OModel p]
+    /\ length h <> src.
+Proof. exact neutral_operand_is_a_fresh_equal_object. Qed.
+Print Assumptions C19_neutral_operand_is_a_fresh_equal_object.
+
+(* ---- the tie to the source: every public method with an `inplace` / `copy` parameter, its default
+   and whether it returns self, as GENERATED from dimod's source, is exactly the table the model covers ---- *)
+Theorem C19_copy_api_is_the_modeled_one :
+  gen_copy_api = modeled_copy_api /\ gen_sampleset_functions = modeled_sampleset_functions.
+Proof. exact copy_api_matches. Qed.
+Print Assumptions C19_copy_api_is_the_modeled_one.
 
 Example C19_example :
   let vf := fun (w st : nat) => st + 100 * w in
